@@ -485,6 +485,12 @@ func (hc *grpcHandlerConn) Receive(msg any) error {
 			// io.EOF, so passing it on would look like a clean end of the request.
 			hc.receiveErr = errorf(CodeInvalidArgument, "protocol error: client sent a trailers envelope")
 		}
+		if !errors.Is(hc.receiveErr, io.EOF) {
+			// Not the end of the request: whatever went wrong, once the call's
+			// context is done - the client went away, or the deadline passed -
+			// that's why the call fails.
+			hc.receiveErr = wrapIfContextDone(hc.request.Context(), hc.receiveErr)
+		}
 		return hc.receiveErr
 	}
 	return nil // must be a literal nil: nil *Error is a non-nil error
@@ -501,7 +507,9 @@ func (hc *grpcHandlerConn) Send(msg any) error {
 		hc.wroteToBody = true
 	}
 	if err := hc.marshaler.Marshal(msg); err != nil {
-		return err
+		// Whatever went wrong, once the call's context is done - the client went
+		// away, or the deadline passed - that's why the call fails.
+		return wrapIfContextDone(hc.request.Context(), err)
 	}
 	return nil // must be a literal nil: nil *Error is a non-nil error
 }
